@@ -314,12 +314,28 @@ floating_point_number = (
 # Basic arithmetic operations
 plus, minus, mult, div = map(pp.Literal, "+-*/")
 
+def _parse_arithmetic_chain(tokens: pp.ParseResults) -> float:
+    # infixNotation hands over the whole left-associative chain: [operand, op, operand, op, operand, ...]
+    group = tokens[0]
+    result = group[0]
+    for op, operand in zip(group[1::2], group[2::2]):
+        if op == "*":
+            result = result * operand
+        elif op == "/":
+            result = result / operand
+        elif op == "+":
+            result = result + operand
+        else:
+            result = result - operand
+    return result
+
+
 # Using infixNotation to manage precedence of operations
 arithmetic_expr = pp.infixNotation(
     floating_point_number,
     [
-        (mult | div, 2, pp.opAssoc.LEFT, lambda s, l, t: t[0][0] * t[0][2] if t[0][1] == "*" else t[0][0] / t[0][2]),
-        (plus | minus, 2, pp.opAssoc.LEFT, lambda s, l, t: t[0][0] + t[0][2] if t[0][1] == "+" else t[0][0] - t[0][2]),
+        (mult | div, 2, pp.opAssoc.LEFT, _parse_arithmetic_chain),
+        (plus | minus, 2, pp.opAssoc.LEFT, _parse_arithmetic_chain),
     ],
 )
 
